@@ -19,14 +19,22 @@ class Line(str):
 
 
 class Gen:
-    def __init__(self, rng, rec, maxdepth=3):
+    def __init__(self, rng, rec, maxdepth=3, slash_names=False):
         self.rng = rng
         self.rec = rec
         self.maxdepth = maxdepth
         self.n = 0
+        # some section names are not of basic-key shape: letters outside ASCII, a '/' at the end (spelled '<t n/ >'
+        # and '<t n//>'); off by default because override paths can only address basic-key shaped names
+        self.slash_names = slash_names
 
     def fresh(self, prefix="n"):
         self.n += 1
+        if prefix == "n" and self.slash_names and self.rng.random() < 0.07:
+            # section names are free text: letters outside ASCII have two cases as well
+            prefix = self.rng.choice(["n\u00fc", "\u00e4n", "n\u00e9"])
+        if prefix.startswith("n") and self.slash_names and self.rng.random() < 0.08:
+            return "%s%d/" % (prefix, self.n)
         return "%s%d" % (prefix, self.n)
 
     def concrete_for(self, stype):
@@ -100,7 +108,7 @@ class Gen:
                         sect_names.append(name)
                     tnw = tn.upper() if rng.random() < 0.2 else tn
                     inner = self.body(self.rec["types"][tn], depth + 1, cont=tn)
-                    head = "<%s%s>" % (tnw, (" " + name) if name else "")
+                    head = "<%s%s%s>" % (tnw, (" " + name) if name else "", " " if name.endswith("/") else "")
                     if not inner and rng.random() < 0.5:
                         blocks.append([L(head[:-1] + "/>", role="empty", cont=cont, child=c, type=tn, name=name)])
                     else:
